@@ -638,11 +638,14 @@ def compile_one(gen_seed, dialect_name):
 
 
 def _where(e):
+    """exception + the innermost frame inside a compiler / dialect module (that is where the
+    responsibility lies; frames of generic helpers such as ColumnElement.__getattr__ are skipped)"""
     import traceback
 
     tb = traceback.extract_tb(e.__traceback__)
     fr = [f for f in tb if "sqlalchemy" in f.filename]
-    last = fr[-1] if fr else tb[-1]
+    comp = [f for f in fr if ("sql/compiler.py" in f.filename or "/dialects/" in f.filename) and not f.name.startswith("<")]
+    last = comp[-1] if comp else (fr[-1] if fr else tb[-1])
     return "%s: %s @ %s:%s in %s" % (type(e).__name__, str(e)[:160], last.filename.split("sqlalchemy/")[-1], last.lineno, last.name)
 
 
